@@ -27,13 +27,19 @@ def explore(ctx, label, strategy, evaluate, n, shrink=True, shrink_calls=None):
         return
     before = set(ctx.verdicts)
     hs = ctx.hseed(label)
+    # Hypothesis' first example is the minimal one (all-zero / first alternative); for small
+    # budgets it would dominate, so it is drawn but not evaluated.
+    skip = {"first": n < 50}
 
     @seed(hs)
-    @settings(max_examples=n, database=None, deadline=None, derandomize=False,
+    @settings(max_examples=n + (1 if skip["first"] else 0), database=None, deadline=None, derandomize=False,
               phases=[Phase.generate], suppress_health_check=_SUPPRESS,
               report_multiple_bugs=False, print_blob=False)
     @given(strategy)
     def collect(case):
+        if skip["first"]:
+            skip["first"] = False
+            return
         evaluate(case, ctx)
 
     try:
